@@ -16,6 +16,7 @@ from pyvc.smt import V, cls, py_eq, nlt, NONE, NUM, BYTES, TEXT, DATE, DATETIME,
 
 QN = 'petl.comparison.Comparable'
 from pyvc.smt import wrapv, WRAP_AXIOMS
+from contracts import lib_order
 DOMAIN = lambda v: cls(v) != OTHER           # the supported value domain of the property
 
 
@@ -99,23 +100,7 @@ def ladder(h):
     goals = [
         ('no exception escapes __lt__', z3.Not(inst(forms['__lt__'], p, q)[1])),
         ('no exception escapes __eq__', z3.Not(inst(forms['__eq__'], p, q)[1])),
-        ('irreflexive', z3.Not(LT(p, p))),
-        ('asymmetric', z3.Implies(LT(p, q), z3.Not(LT(q, p)))),
-        ('transitive', z3.Implies(z3.And(LT(p, q), LT(q, r)), LT(p, r))),
-        ('total: lt or eq or gt', z3.Or(LT(p, q), EQ(p, q), LT(q, p))),
-        ('lt excludes eq', z3.Implies(LT(p, q), z3.Not(EQ(p, q)))),
-        ('eq reflexive', EQ(p, p)),
-        ('eq symmetric', EQ(p, q) == EQ(q, p)),
-        ('eq transitive', z3.Implies(z3.And(EQ(p, q), EQ(q, r)), EQ(p, r))),
-        ('lt respects eq on the right', z3.Implies(z3.And(LT(p, q), EQ(q, r)), LT(p, r))),
-        ('lt respects eq on the left', z3.Implies(z3.And(EQ(p, q), LT(q, r)), LT(p, r))),
-        ('eq agrees with == on non-sequence values', z3.Implies(z3.And(z3.Not(isseq(p)), z3.Not(isseq(q))), EQ(p, q) == py_eq(p, q))),
-        ('None sorts first', z3.Implies(z3.And(cls(p) == NONE, cls(q) != NONE), LT(p, q))),
-        ('None equals None only', z3.Implies(cls(p) == NONE, EQ(p, q) == (cls(q) == NONE))),
-        ('numbers before every non-number except None', z3.Implies(z3.And(cls(p) == NUM, cls(q) != NUM, cls(q) != NONE), LT(p, q))),
-        ('numbers by numeric value', z3.Implies(z3.And(cls(p) == NUM, cls(q) == NUM), LT(p, q) == (smt.num(p) < smt.num(q)))),
-        ('bytes before text', z3.Implies(z3.And(cls(p) == BYTES, cls(q) == TEXT), LT(p, q))),
-        ('native order inside one class', z3.Implies(z3.And(cls(p) == cls(q), smt.ORDERED(p), z3.Not(isseq(p))), LT(p, q) == nlt(p, q))),
+    ] + [(n, f) for n, f in lib_order.laws(LT, EQ, p, q, r)] + [
         ('unrelated classes ordered by class alone',
          z3.Implies(z3.And(cls(p) != cls(q), cls(r) == cls(q), smt.ORDERED(p), smt.ORDERED(q), z3.Not(isseq(p)), z3.Not(isseq(q))),
                     LT(p, q) == LT(p, r))),
@@ -124,13 +109,12 @@ def ladder(h):
         ('__ge__ = not lt', inst(forms['__ge__'], p, q)[0] == z3.Not(LT(p, q))),
         ('__gt__ is the converse of __lt__', inst(forms['__gt__'], p, q)[0] == LT(q, p)),
         # raw right operand (what the selectors and T3 reflection hand over): same relation as a wrapped operand
-        ('raw right operand: __lt__ agrees (non-list operand)', z3.Implies(cls(q) != LIST, inst(lt_raw, p, q)[0] == LT(p, q))),
-        ('raw right operand: __eq__ agrees (non-list operand)', z3.Implies(cls(q) != LIST, inst(eq_raw, p, q)[0] == EQ(p, q))),
-        ('raw right operand: __gt__ agrees (non-list operand)', z3.Implies(cls(q) != LIST, inst(gt_raw, p, q)[0] == LT(q, p))),
-        ('raw right operand: __le__ agrees (non-list operand)', z3.Implies(cls(q) != LIST, inst(le_raw, p, q)[0] == z3.Or(LT(p, q), EQ(p, q)))),
-        ('raw right operand: __ge__ agrees (non-list operand)', z3.Implies(cls(q) != LIST, inst(ge_raw, p, q)[0] == z3.Not(LT(p, q)))),
+        ('raw right operand: __lt__ agrees', inst(lt_raw, p, q)[0] == LT(p, q)),
+        ('raw right operand: __eq__ agrees', inst(eq_raw, p, q)[0] == EQ(p, q)),
+        ('raw right operand: __gt__ agrees', inst(gt_raw, p, q)[0] == LT(q, p)),
+        ('raw right operand: __le__ agrees', inst(le_raw, p, q)[0] == z3.Or(LT(p, q), EQ(p, q))),
+        ('raw right operand: __ge__ agrees', inst(ge_raw, p, q)[0] == z3.Not(LT(p, q))),
         ('raw right operand: no exception', z3.Not(z3.Or(inst(lt_raw, p, q)[1], inst(eq_raw, p, q)[1], inst(gt_raw, p, q)[1]))),
-        ('raw LIST right operand compares element-wise like a wrapped one (F7)', z3.Implies(cls(q) == LIST, inst(lt_raw, p, q)[0] == LT(p, q))),
     ]
     for name, g in goals:
         h.lemma(name, dom, g, kind='law')
